@@ -563,3 +563,60 @@ Section TransformTopHelper.
     - destruct H as [E1 [E2 _]]. split; [exact E1|]. intros i Hi. rewrite E2 by lia. now apply Hsame.
   Qed.
 End TransformTopHelper.
+
+(* ------------------------------------------------------------------ *)
+(** * del obj.a is reset_<a>(_inplace=True) *)
+
+Section DelAttrOp.
+  Variable ct : ctable.
+  Variable h0 : list obj.
+  Variables (l : loc) (a : aid) (c : cid) (d : list (aid * val)) (k : cls) (sp : attr_spec).
+  Variable s : state.
+  Hypothesis Hl : nth_error (heap s) l = Some (OInst c d).
+  Hypothesis Hc : lookup_cls ct c = Some k.
+  Hypothesis Ha : lookup_attr k a = Some sp.
+  Hypothesis Hd : NoDup (map fst d).
+  Hypothesis Hok : aok (absv (heap s) (VRef l)) = true.
+  Hypothesis Hfz : c_frozen k = false.
+  Hypothesis Hni : no_inval k.
+  Hypothesis Hfa : fail_at s = None.
+  Hypothesis Hty : ty_depth (a_ty sp) < FUEL.
+  Hypothesis Hnc : ty_is_collection (a_ty sp) = false.
+  Hypothesis Hp : match a_prepare sp with Some f => scalar_fn f = true | None => True end.
+
+  Notation hin := (mkh [] true true VMissing false None None [] None).
+  Notation ahin := (mkah [] true true AMissing false None None [] None).
+
+  (* the same computation, up to the value handed back (None / the receiver) *)
+  Lemma delattr_op_is_reset roots x :
+    nth x roots VNone = VRef l ->
+    step ct roots (OpDelAttr x a) s =
+    match run_helper ct l (HReset a) hin s with
+    | (Ok _, s') => (Ok VNone, s')
+    | (Err e, s') => (Err e, s')
+    end.
+  Proof.
+    intro Hx. unfold step, run_helper. rewrite Hx. cbn [loc_of h_if negb h_inplace]. rewrite !bind_ret.
+    rewrite (bind_thawed_false ct l _ _ s c d k Hl Hc). unfold bind.
+    destruct (exec ct XFUEL (KDelAttr l a false false) s) as [[v|e] s']; reflexivity.
+  Qed.
+
+  Theorem delattr_op_refines roots x :
+    nth x roots VNone = VRef l ->
+    literal_default a k sp -> vscalar (class_default k a) = true \/ class_default k a = VMissing ->
+    match step ct roots (OpDelAttr x a) s with
+    | (Ok r, s') => spec_helper ct h0 (absv (heap s) (VRef l)) (SDelAttrOp a) ahin = SOk (absv (heap s') (VRef l)) /\
+                    (forall i, i <> l -> nth_error (heap s') i = nth_error (heap s) i)
+    | (Err e, s') => spec_helper ct h0 (absv (heap s) (VRef l)) (SDelAttrOp a) ahin = SErr e /\ heap s' = heap s
+    end.
+  Proof.
+    intros Hx Hlit Hdv. rewrite (delattr_op_is_reset roots x Hx).
+    assert (Hsame : spec_helper ct h0 (absv (heap s) (VRef l)) (SDelAttrOp a) ahin =
+                    spec_helper ct h0 (absv (heap s) (VRef l)) (SReset a) ahin).
+    { rewrite !(spec_helper_inplace_unfrozen ct h0 l c d k s Hl Hc Hfz _ ahin eq_refl). reflexivity. }
+    rewrite Hsame.
+    pose proof (reset_scalar_inplace_refines ct h0 l a c d k sp s Hl Hc Ha Hd Hok Hfz Hni Hfa Hty Hnc Hp Hlit Hdv) as H.
+    cbv zeta in H.
+    destruct (run_helper ct l (HReset a) hin s) as [[r|e] s']; [destruct H as [_ H]|]; exact H.
+  Qed.
+End DelAttrOp.
